@@ -274,6 +274,21 @@ def bounded_join(ctx, fn, bb):
             if e and e.get('otherwise') is not None:
                 fin_true.add(e['otherwise'])
                 fin_holds |= H.holds_at_term(b2)
+    # `iter().position(|(_, thread)| thread.is_finished())`: the Some edge of the search is the true edge of the test for the element found
+    from .callgraph import _closure_args
+    from .ordq import edge_for
+    for b2, t in fn.calls():
+        name = t['func'].get('fn') or ''
+        if name.endswith(('::position', '::rposition')) and not fn.blocks[b2]['cleanup']:
+            for c in _closure_args(t):
+                cf = ctx.F.fn(c)
+                # the closure's answer *is* the answer of is_finished() (the call writes the return place; a negation would not)
+                if cf and len(list(cf.calls())) == 1 and all((t3['func'].get('fn') or '').endswith('::is_finished') and not t3['dest']['p'] and t3['dest']['l'] == 0 for _, t3 in cf.calls()):
+                    e = result_edges(fn, b2)
+                    se = edge_for(e, 'core::option::Option', 'Some') if e else None
+                    if se is not None:
+                        fin_true.add(se)
+                        fin_holds |= H.holds_at_term(b2)
     if not fin_true:
         return None
     # the handle that is taken out of the table is the one that was tested: removal and test under one hold of the table's lock
